@@ -65,4 +65,21 @@ theorem packWords_lt (bs : Bits) : ∀ w ∈ packWords bs, w < 256^4 := by
 theorem packWords_ne_nil (bs : Bits) (h : bs ≠ []) : packWords bs ≠ [] := by
   rw [packWords, dif_neg h]; simp
 
+theorem length_packWords_le (bs : Bits) : (packWords bs).length ≤ bs.length := by
+  induction hn : bs.length using Nat.strongRecOn generalizing bs with
+  | _ n ih =>
+    by_cases hb : bs = []
+    · subst hb; rw [packWords]; simp
+    · rw [packWords, dif_neg hb]
+      have hlen : (bs.drop 32).length < n := by
+        cases bs with
+        | nil => exact absurd rfl hb
+        | cons a t => simp only [List.length_drop, List.length_cons] at hn ⊢; omega
+      have := ih _ hlen (bs.drop 32) rfl
+      have hpos : 0 < bs.length := by cases bs with
+        | nil => exact absurd rfl hb
+        | cons a t => simp
+      simp only [List.length_cons, List.length_drop] at this ⊢
+      omega
+
 end DS.Cpc
